@@ -41,6 +41,7 @@ pub fn new_box(area: &str) -> Option<Box<dyn VerifBox>> {
         "c13" => Some(Box::new(
             crate::protocol::request_response::verif_c13::RrBox::new(),
         )),
+        "c02" => Some(Box::new(crate::crypto::noise::verif_c02::NoiseBox::new())),
         _ => None,
     }
 }
@@ -58,6 +59,7 @@ pub fn areas() -> Vec<&'static str> {
         "c18",
         "c19",
     ]
+    vec!["c17", "c02"]
 }
 
 /// Decode a hex string.
